@@ -23,13 +23,13 @@ const (
 
 // Obligation is one instance of a rule at one construct. It is keyed by Rule+Key, never by line.
 type Obligation struct {
-	Rule    string  `json:"rule"`
-	Key     string  `json:"construct"`
-	Pos     string  `json:"pos,omitempty"`
-	Verdict Verdict `json:"verdict"`
-	Detail  string  `json:"detail,omitempty"`
+	Rule    string   `json:"rule"`
+	Key     string   `json:"construct"`
+	Pos     string   `json:"pos,omitempty"`
+	Verdict Verdict  `json:"verdict"`
+	Detail  string   `json:"detail,omitempty"`
 	Path    []string `json:"path,omitempty"`
-	Config  string  `json:"config,omitempty"`
+	Config  string   `json:"config,omitempty"`
 }
 
 // Rule describes one rule of a property.
@@ -292,19 +292,19 @@ func Finish(res *Result, verifDir string, tier string, seed int) int {
 			"obligations": perRule[r.ID], "floor": r.Floor})
 	}
 	cov := map[string]interface{}{
-		"explanation":  prop.Explanation,
-		"obligations":  nOb,
-		"discharged":   nDis,
-		"checker_cmd":  "bin/hcsa check " + prop.ID + " -tier " + tier,
-		"trusted_base": []string{"go/types type checker", "golang.org/x/tools v0.29.0 go/packages + go/ssa + callgraph/vta", "the rule implementations in /verif/hcsa/rules"},
-		"samples":      samples,
-		"rules":        rules,
-		"configs":      uniq(res.Configs),
-		"not_decided":  prop.NotDecided,
+		"explanation":            prop.Explanation,
+		"obligations":            nOb,
+		"discharged":             nDis,
+		"checker_cmd":            "bin/hcsa check " + prop.ID + " -tier " + tier,
+		"trusted_base":           []string{"go/types type checker", "golang.org/x/tools v0.29.0 go/packages + go/ssa + callgraph/vta", "the rule implementations in /verif/hcsa/rules"},
+		"samples":                samples,
+		"rules":                  rules,
+		"configs":                uniq(res.Configs),
+		"not_decided":            prop.NotDecided,
 		"known_findings_matched": len(res.Known),
 		"renames_recognised":     res.Renames,
-		"undecided":    len(res.Undecideds),
-		"exhaustive":   true,
+		"undecided":              len(res.Undecideds),
+		"exhaustive":             true,
 	}
 	keys := []string{}
 	for k := range res.Counters {
